@@ -293,6 +293,43 @@ func C10(tier string) int {
 		}
 	}
 
+	// ---- (3b) acceptance is compositional: with P accepted, `P and (T)` / `(T) and P` are accepted exactly when T is -
+	// in particular after nested sub-queries whose symbol tables differ from the outer one
+	prefixes := []string{
+		`isEmpty(from places where isEmpty(from people where true))`,
+		`count(from places where count(from people where anyOf(roles) = "a") > 0) > 0`,
+		`isEmpty(from reports where isEmpty(from places where name = "x"))`,
+		`count(from reports where count(from reports where count(from places where true) = 0) = 0) = 0`,
+		`anyOf(places.people.roles) = "a"`,
+	}
+	accepts := func(text string) bool {
+		q, err, pan := safeParse(env.worlds[0].people, text)
+		if pan != nil {
+			rep.Violation("C10|panic-in-parse|"+text, fmt.Sprintf("parsing %q panicked: %v", text, pan), map[string]interface{}{"input": text, "class": "composition"})
+			return false
+		}
+		return err == nil && q != nil
+	}
+	for _, p := range prefixes {
+		if !accepts(p) {
+			rep.Violation("C10|composition-prefix-rejected|"+p, fmt.Sprintf("well-formed query %q rejected", p), map[string]interface{}{"input": p})
+			continue
+		}
+		for _, t := range sentences {
+			if strings.Contains(t, "sort by") || strings.Contains(t, "skip ") || strings.Contains(t, "limit ") || strings.TrimSpace(t) == "" {
+				continue
+			}
+			alone := accepts(t)
+			for _, c := range []string{p + " and (" + t + ")", "(" + t + ") and " + p} {
+				rep.Count("evaluations", 1)
+				rep.Count("compositions", 1)
+				if got := accepts(c); got != alone {
+					rep.Violation("C10|acceptance-not-compositional|"+c, fmt.Sprintf("%q accepted=%v on its own, but %q accepted=%v (the other conjunct %q is accepted)", t, alone, c, got, p), map[string]interface{}{"input": c, "class": "composition"})
+				}
+			}
+		}
+	}
+
 	// ---- (4) single-token mutations of valid sentences
 	valid := []string{
 		`s = "x" and i > 5`, `anyOf(roles) = "x" or isEmpty(reports)`, `i between 4 and 6 sort by s desc skip 1 limit 5`,
